@@ -18,7 +18,8 @@ import tflsum
 import vlib
 
 ELEM = {"int8": 1, "uint8": 1, "int16": 2, "int32": 4}
-FAMS = ["single:conv", "single:dw", "single:maxpool", "single:avgpool", "single:fc", "conv_chain", "conv_chain", "single:conv"]
+FAMS = ["single:conv", "single:dw", "single:maxpool", "single:avgpool", "single:fc", "conv_chain", "single:transpose", "conv_chain",
+        "single:conv", "single:transpose", "single:reshape", "single:pad", "single:slice", "single:concat"]
 
 
 def macs_of(ref):
@@ -107,10 +108,10 @@ def run(tier):
     res = vlib.Result("C01", tier, "other")
     b = vlib.build_property("C01")
     okx, xlog = vlib.build_extraction("npuExec")
-    n = 48 if tier == "quick" else 900
+    n = 70 if tier == "quick" else 1200
     max_macs = 250000 if tier == "quick" else 1500000
     rng = random.Random("c01/%d" % vlib.seed())
-    jobs = compiles.plan(FAMS, n, vlib.seed(), tag="c01", capture=False)
+    jobs = compiles.corpus_jobs(capture=False) + compiles.plan(FAMS, n, vlib.seed(), tag="c01", capture=False)
     results = compiles.run_all(jobs, timeout=900)
     cases, meta = [], []
     skipped = collections.Counter()
